@@ -16,14 +16,15 @@ from ..gen import Gen, assign_ids
 PID = "C01"
 LEVEL = "exploration"
 ENGINE = "ctxsim"
-REACH = ['reentrant_checks', 'history_shadow_judged', 'outcome:accept', 'outcome:reject', 'outcome:AnnotationError']  # counters (prefixes) that a healthy batch makes non-zero; gaps are reported in the evidence
+REACH = ['reentrant_checks', 'history_shadow_judged', 'python_scalar_vs_union_array_type:accept', 'python_scalar_vs_union_array_type:reject', 'outcome:accept', 'outcome:reject', 'outcome:AnnotationError']  # counters (prefixes) that a healthy batch makes non-zero; gaps are reported in the evidence
 BUDGET = {"quick": 35, "thorough": 600}
 RULE = (
     "Seeded single-thread histories: nested jaxtyped('context') blocks and typechecker=None calls (arguments k, o "
     "for {k}/{o.n} symbolic axes) containing 3-14 isinstance checks each; dim strings of 0-5 tokens from the "
     "documented grammar (int, name, symbolic expression, '_', '...', '*name', with '#', '_', 'doc=' modifiers in "
     "either order, at most one multi-axis token at any position), numpy / duck arrays of rank 0-6 with sizes "
-    "{0,1,2,3,4,5,7}, dtypes inside and outside the category, wrong array types; values are chosen relative to a "
+    "{0,1,2,3,4,5,7}, dtypes inside and outside the category, wrong array types, array types that are a union with a "
+    "Python scalar type (Float[Union[np.ndarray, float], dims]: the scalar survives iff all axes are multi-axis) and Python scalars as values; values are chosen relative to a "
     "preferred assignment so that passes, late mismatches, broadcast cases and rank errors all occur.  Oracle: "
     "outcome in model outcome set; on accept bindings == model post-state.  distinct_nontrivial = distinct "
     "(token-class string, variadic-rule branch, pre-bound?, outcome) tuples."
@@ -54,7 +55,17 @@ def gen(seed, tier="quick"):
             cat = r.choice(("Float", "Shaped", "Int", "Num", "Bool")) if r.random() > 0.08 else r.choice(("Struct1", "Struct2"))
             if cat.startswith("Struct"):
                 at = "np"
-            a = g.arr_ann(atype=at, dtype=cat)
+            elif r.random() < 0.07:
+                # a Python scalar type next to the array type, Float[Union[np.ndarray, float], dims]: the scalar type survives iff
+                # every axis is a multi-axis specifier (and the category has such a dtype); a scalar binds nothing
+                at = "np+" + r.choice(("float", "int", "bool"))
+            toks = None
+            if "+" in at and r.random() < 0.6:
+                toks = r.choice(([], [g.token(True)], [{"kind": "anonvar", "dots": True}],
+                                 [{"kind": "var", "name": r.choice(g.var_names), "b": r.random() < 0.3, "q": False, "order": 0}],
+                                 [{"kind": "var", "name": r.choice(g.var_names), "b": False, "q": False, "order": 0}, g.token(False)],
+                                 [g.token(False), {"kind": "anonvar", "dots": True}]))
+            a = g.arr_ann(atype=at, dtype=cat, toks=toks)
             p = dict(pref)
             if r.random() < 0.25:  # drift: makes later uses disagree with earlier bindings
                 nm = r.choice(("a", "b", "c", "n"))
@@ -65,7 +76,11 @@ def gen(seed, tier="quick"):
             x = r.random()
             if x < 0.05:
                 vt = r.choice(("np", "duck", "str"))  # possibly the wrong array type
+            if "+" in at and vt is None:
+                vt = "np"
             val = g.arr_val(a, p, p_bad=r.choice((0.0, 0.05, 0.2)), vt=vt)
+            if "+" in at and r.random() < 0.5:
+                val = {"t": "py", "k": r.choice(("float", "int", "bool"))}
             if cat.startswith("Struct") and val["t"] == "np":
                 val["d"] = r.choice(("struct1", "struct2", "struct1", "struct2", "float32"))
             if r.random() < 0.2:
@@ -208,6 +223,8 @@ class Observer:
             self.stats.inc("history_shadow_judged" if self.shadow is not None else "history_shadow_uncertain")
         self.stats.inc("evaluations")
         self.stats.inc("outcome:" + got)
+        if model.unshare(op["val"])["t"] == "py":
+            self.stats.inc("python_scalar_vs_union_array_type:" + got)
         cls = "".join({"named": "n", "fixed": "f", "sym": "s", "anon": "_", "var": "*", "anonvar": "."}[t["kind"]] +
                       ("#" if t.get("b") else "") for t in model.parse_dims(spec["dims"]))
         vb = self._var_branch(spec, snap0)
